@@ -629,7 +629,7 @@ theorem step_nobias {σ} (g : Rng σ) (m m' : MacState) (rs rs' : σ) (ev : Ev) 
         | nothing => simp only [hsc] at hm2; rw [hm2]; exact hn1
 
 /-- without a join bias the uplink's TxConfig carries the configured data rate (in every region) -/
-theorem macSend_txAt' {σ} (g : Rng σ) (m m1 : MacState) (s : Session) (hst : m.st = .joined s) (hwf : MacWF m)
+theorem macSend_txAt_nobias {σ} (g : Rng σ) (m m1 : MacState) (s : Session) (hst : m.st = .joined s) (hwf : MacWF m)
     (hnb : NoBias m.region) (data : List Nat) (fport : Nat) (conf : Bool) (rs rs' : σ) (so : SendOut)
     (h : macSend g m data fport conf rs = .ok (some so, m1, rs')) : TxAt m.region.id m.cfg.dataRate so.tx := by
   obtain ⟨dr, tx, region', pw, r1, r2, _, hdr, hsel, _, _, ho⟩ := macSend_joined g m s hst data fport conf rs rs' _ m1 h
@@ -785,7 +785,7 @@ theorem step_adrRel {σ} (g : Rng σ) (r : RegionId) (m m' : MacState) (rs rs' :
           · obtain ⟨p, hp⟩ := (regionWF_isFixed hwf.region).2 (by rw [hid]; exact hfx)
             exact noBias_dyn hp
           · exact hnb hfx
-        have := macSend_txAt' g m m1 s hst hwf hno data fport conf rs rs' so hsend
+        have := macSend_txAt_nobias g m m1 s hst hwf hno data fport conf rs rs' so hsend
         rw [hid, ← hdr] at this
         exact this
       have hfd : (sentSession s conf).fcntDown = s.fcntDown := rfl
@@ -956,4 +956,4 @@ end C12
 #print axioms C12.macSend_txAt
 #print axioms C12.selectTxChannel_nobias
 #print axioms C12.step_nobias
-#print axioms C12.macSend_txAt'
+#print axioms C12.macSend_txAt_nobias
